@@ -14,7 +14,7 @@ pub fn spec() -> Spec {
     Spec {
         prop: "C18",
         level: "exploration",
-        rule: "Reference filter (positional topics, null = wildcard, list = alternatives, address equality, order (block, txIndex, logIndex), each log once) over the receipts the harness collected, compared as a list with eth_getLogs for generated filters: address {none, emitter, other} x up to 4 topic positions {absent, null, hit, miss, list with hit, list of misses} x ranges {single block, default latest, 2..6 blocks, 7 (must be refused), reversed, hex/decimal/tag spellings}; every filter asked while all blocks are uncommitted, after commit, and while later uncommitted blocks exist. Unspecified corners (empty alternative list, null inside a list) are sent but only checked for 'no crash, same answer committed/uncommitted'. One shard in sixteen also runs a mass case: a transaction with over 10 000 logs and six blocks that exceed 10 000 matching logs only together, queried uncommitted and committed. Non-trivial = filter whose reference answer has >=2 logs from >=2 transactions; distinct by filter shape.",
+        rule: "Reference filter (positional topics, null = wildcard, list = alternatives, address equality, order (block, txIndex, logIndex), each log once) over the receipts the harness collected, compared as a list with eth_getLogs for generated filters: address {none, emitter, other} x up to 4 topic positions {absent, null, hit, miss, list with hit, list of misses} x ranges {single block, default latest, 2..6 blocks, 7 (must be refused), reversed, hex/decimal/tag spellings}; every filter asked while all blocks are uncommitted, after commit, and while later uncommitted blocks exist. Unspecified corners (empty alternative list, null inside a list) are sent but only checked for 'no crash, same answer committed/uncommitted'. Logs come from directly called contracts, from contracts one call frame down (receipt.to differs from log.address) and from the bridge's token contracts. One shard in sixteen also runs a mass case: a transaction with over 10 000 logs and six blocks that exceed 10 000 matching logs only together, queried uncommitted and committed. Non-trivial = filter whose reference answer has >=2 logs from >=2 transactions; distinct by filter shape.",
         assumptions: vec!["a null at a position beyond a log's topic count is read as 'constrains nothing' (the statement says null = wildcard)".into()],
         exhaustive: false,
         min_nontrivial: 2,
@@ -240,7 +240,19 @@ fn grow_logs(rng: &mut Rng, d: &mut Driver, emitters: &[String], blocks: u64, un
         for _ in 0..ntx {
             let e = rng.pick(emitters).clone();
             *uniq += 1;
-            let data = if rng.chance(2, 3) {
+            if rng.chance(1, 8) {
+                // bridge traffic: the controller calls the token contract, which emits the Transfer log
+                let r = d.exec(Op::Deposit { pk: pk.clone(), ticker: (*rng.pick(&["lgs", "LGS", "lg2"])).to_string(), amount: format!("0x{:x}", rng.range(1, 1000)), ctx: Ctx { ts, hash: hash.clone(), idx: d.ntx }, iid: format!("c18-dep-{}i0", *uniq) });
+                handed.extend(hist::receipts_in(&r));
+                continue;
+            }
+            let data = if rng.chance(1, 4) {
+                // the log is emitted one call frame down, by the other emitter: receipt.to != log.address
+                let other = rng.pick(emitters).clone();
+                let n = rng.below(5);
+                let inner = asm::tool_call(asm::OP_LOG, &[asm::word_u64(n), hist_word(&topic(rng.below(4))), hist_word(&topic(rng.below(4))), hist_word(&topic(rng.below(4))), hist_word(&topic(rng.below(4))), asm::word_u64(*uniq)], &[]);
+                asm::tool_call(asm::OP_CALL, &[asm::word_addr(&hist::parse_addr(&other))], &inner)
+            } else if rng.chance(2, 3) {
                 let n = rng.below(5);
                 asm::tool_call(asm::OP_LOG, &[asm::word_u64(n), hist_word(&topic(rng.below(4))), hist_word(&topic(rng.below(4))), hist_word(&topic(rng.below(4))), hist_word(&topic(rng.below(4))), asm::word_u64(*uniq)], &[])
             } else {
@@ -356,6 +368,13 @@ fn one_case(ctx: &WorkerCtx, rep: &mut WorkerReport, case_seed: u64, nfilters: u
     let latest = d.height as u64;
     let logs = collect_logs(&mut d);
     rep.count("reference_logs", logs.len() as u64);
+    // address filters name every contract that ever logged (incl. the token contracts of the bridge)
+    let mut emitters = emitters;
+    for l in &logs {
+        if !emitters.contains(&l.address) {
+            emitters.push(l.address.clone());
+        }
+    }
     let filters: Vec<Filter> = (0..nfilters).map(|_| gen_filter(&mut rng, latest, &emitters)).collect();
     let mut first = vec![None; filters.len()];
     if !ask_all(ctx, rep, &mut d, &filters, &logs, "uncommitted", case_seed, &mut first) {
